@@ -124,6 +124,14 @@ def flow() -> Route:
     return Route(nlri, AttributeCollection(), nexthop=IP.NoNextHop)
 
 
+def _netmask(netmask: str, afi: AFI) -> int:
+    """The prefix length of a flow source or destination, which the address family bounds."""
+    maximum = IPv4.BITS if afi == AFI.ipv4 else IPv6.BITS
+    if not netmask.isdigit() or int(netmask) > maximum:
+        raise ValueError(f"'{netmask}' is not a valid {afi.name()} prefix length\n  Must be 0-{maximum}")
+    return int(netmask)
+
+
 def source(tokeniser: 'Tokeniser') -> Generator[Flow4Source | Flow6Source, None, None]:
     """Update source to handle both IPv4 and IPv6 flows."""
     data: str = tokeniser()
@@ -133,16 +141,16 @@ def source(tokeniser: 'Tokeniser') -> Generator[Flow4Source | Flow6Source, None,
         netmask: str
         ip, netmask = data.split('/')
         raw: bytes = b''.join(bytes([int(_)]) for _ in ip.split('.'))
-        yield Flow4Source.make_prefix4(raw, int(netmask))
+        yield Flow4Source.make_prefix4(raw, _netmask(netmask, AFI.ipv4))
     # Check if it's IPv6 without an offset
     elif data.count(':') >= IPv6.COLON_MIN and data.count('/') == SINGLE_SLASH:
         ip, netmask = data.split('/')
-        yield Flow6Source.make_prefix6(IP.pton(ip), int(netmask), 0)
+        yield Flow6Source.make_prefix6(IP.pton(ip), _netmask(netmask, AFI.ipv6), 0)
     # Check if it's IPv6 with an offset
     elif data.count(':') >= IPv6.COLON_MIN and data.count('/') == DOUBLE_SLASH:
         offset: str
         ip, netmask, offset = data.split('/')
-        yield Flow6Source.make_prefix6(IP.pton(ip), int(netmask), int(offset))
+        yield Flow6Source.make_prefix6(IP.pton(ip), _netmask(netmask, AFI.ipv6), int(offset))
 
 
 def destination(tokeniser: 'Tokeniser') -> Generator[Flow4Destination | Flow6Destination, None, None]:
@@ -154,16 +162,16 @@ def destination(tokeniser: 'Tokeniser') -> Generator[Flow4Destination | Flow6Des
         netmask: str
         ip, netmask = data.split('/')
         raw: bytes = b''.join(bytes([int(_)]) for _ in ip.split('.'))
-        yield Flow4Destination.make_prefix4(raw, int(netmask))
+        yield Flow4Destination.make_prefix4(raw, _netmask(netmask, AFI.ipv4))
     # Check if it's IPv6 without an offset
     elif data.count(':') >= IPv6.COLON_MIN and data.count('/') == SINGLE_SLASH:
         ip, netmask = data.split('/')
-        yield Flow6Destination.make_prefix6(IP.pton(ip), int(netmask), 0)
+        yield Flow6Destination.make_prefix6(IP.pton(ip), _netmask(netmask, AFI.ipv6), 0)
     # Check if it's IPv6 with an offset
     elif data.count(':') >= IPv6.COLON_MIN and data.count('/') == DOUBLE_SLASH:
         offset: str
         ip, netmask, offset = data.split('/')
-        yield Flow6Destination.make_prefix6(IP.pton(ip), int(netmask), int(offset))
+        yield Flow6Destination.make_prefix6(IP.pton(ip), _netmask(netmask, AFI.ipv6), int(offset))
 
 
 # Expressions
